@@ -1374,8 +1374,30 @@ fn main() {
                     .map(|i| i.to_string());
                 let all_unit = e.variants.iter().all(|v| matches!(v.fields, Fields::Unit));
                 let any_disc = e.variants.iter().any(|v| v.discriminant.is_some());
+                // serde attributes the translation does not interpret (container keys other than into / try_from / untagged, any
+                // serde attribute on a variant or on a variant's field) become an extra pseudo-variant: the enumeration then no longer
+                // equals its specification table, for exactly the properties that rest on it
+                let mut stray: Vec<String> = kv
+                    .iter()
+                    .filter(|(k, _)| !["into", "try_from", "untagged"].contains(&k.as_str()))
+                    .map(|(k, v)| format!("{k}={}", v.clone().unwrap_or_default()))
+                    .collect();
+                for v in &e.variants {
+                    for (k, val) in serde_kv(&v.attrs) {
+                        stray.push(format!("{}: {k}={}", v.ident, val.unwrap_or_default()));
+                    }
+                    for f in v.fields.iter() {
+                        for (k, val) in serde_kv(&f.attrs) {
+                            stray.push(format!("{} field: {k}={}", v.ident, val.unwrap_or_default()));
+                        }
+                    }
+                }
+                let stray_name = if stray.is_empty() { None } else { Some(format!("uninterpreted attribute: {}", stray.join(", "))) };
                 if get("into").is_some() || get("try_from").is_some() {
-                    let vs: Vec<String> = e.variants.iter().map(|v| cs(&v.ident.to_string())).collect();
+                    let mut vs: Vec<String> = e.variants.iter().map(|v| cs(&v.ident.to_string())).collect();
+                    if let Some(sn) = &stray_name {
+                        vs.push(cs(sn));
+                    }
                     decls.push(format!(
                         "({}, RStrEnum {} {} {} {} {} [{}])",
                         li.cfg.coq(),
@@ -1396,6 +1418,9 @@ fn main() {
                             None => ok = false,
                         }
                     }
+                    if let Some(sn) = &stray_name {
+                        vs.push(format!("({}, 0)", cs(sn)));
+                    }
                     if !ok {
                         decls.push(format!("({}, RUnknown {})", li.cfg.coq(), cs(&format!("enum {name}: implicit discriminant"))));
                     } else {
@@ -1411,7 +1436,7 @@ fn main() {
                     }
                 } else {
                     let untagged = kv.iter().any(|(k, _)| k == "untagged");
-                    let vs: Vec<String> = e
+                    let mut vs: Vec<String> = e
                         .variants
                         .iter()
                         .map(|v| {
@@ -1419,6 +1444,9 @@ fn main() {
                             format!("({}, {}, [{}])", cs(&v.ident.to_string()), cfg_of(&v.attrs).coq(), tys.join("; "))
                         })
                         .collect();
+                    if let Some(sn) = &stray_name {
+                        vs.push(format!("({}, CTrue, [TBool])", cs(sn)));
+                    }
                     decls.push(format!(
                         "({}, REnum {} {} {} {} [\n      {}])",
                         li.cfg.coq(),
@@ -1442,6 +1470,14 @@ fn main() {
                         )),
                         None => decls.push(format!("({}, RUnknown {})", li.cfg.coq(), cs(&format!("{cur}: bitflags!")))),
                     }
+                } else if !m.mac.path.segments.last().map(|s| s.ident == "generate_macros").unwrap_or(false) {
+                    // any other item-level macro (a macro_rules! definition or an invocation that may expand to items
+                    // the translator cannot see) is unreadable by construction
+                    decls.push(format!(
+                        "({}, RUnknown {})",
+                        li.cfg.coq(),
+                        cs(&format!("{cur}: item macro {}!", m.mac.path.to_token_stream().to_string().replace(' ', "")))
+                    ));
                 }
             }
             Item::Impl(im) => {
@@ -1624,8 +1660,11 @@ fn e_ident(full: &str) -> String {
     full.rsplit("::").next().unwrap_or(full).to_string()
 }
 
+/// a constant that is neither an integer, an integer array nor a string: left out of the constant tables.  It is not counted as
+/// unreadable by itself (a new `char` or slice constant is harmless); a declaration, capacity or table that needs it
+/// becomes unreadable (TUnknown / RUnknown) and a function that uses it changes its shape.
 fn w_unknown(o: &mut String, what: &str) {
-    writeln!(o, "(* RUnknown {} *)", what).unwrap();
+    writeln!(o, "(* not an integer, array or string constant, left out: {} *)", what).unwrap();
 }
 
 fn parse_bitflags(tr: &Tr, ts: proc_macro2::TokenStream, cur: &str) -> Option<(String, String, Vec<(String, String)>)> {
